@@ -1,7 +1,9 @@
 package main
 
 import (
+	"bufio"
 	"context"
+	"encoding/json"
 	"encoding/xml"
 	"fmt"
 	"math/rand"
@@ -24,11 +26,85 @@ import (
 func init() { commands["total"] = cmdTotal; commands["total1"] = cmdTotal1 }
 
 var alphabet = []string{"0", "1", "9", "a", "x", "v", "A", ".", "-", "+", "_", "^", "~", ">", "<", "=", "!", "*", "|", ",", " ",
-	"[", "]", "(", ")", ":", ";", "\"", "'", "@", "$", "{", "∞", "\xff"}
+	"[", "]", "(", ")", ":", ";", "\"", "'", "@", "$", "{", "∞", "\xff",
+	// keyword tokens (Totality!KWords): indices 35..84
+	"${env.HOME}", "${settings.localRepository}", "${project.version}", "${pom.groupId}", "${project.parent.version}", "${undefined}", "${p1}", "${p2}", "${", "}",
+	"-SNAPSHOT", "alpha", "rc", ".final", ".dev1", ".post2", "1.2.3", "1.0", "latest", "2!",
+	" and ", " or ", "not ", " in ", "extra", "python_version", "sys_platform", "os_name", "==", ">=",
+	"~=", "!=", "===", "<=", "||", " - ", "~>", "^", "*", ".x",
+	"\n", "\t", "ERROR: ", "ATTR: ", "|", "dev|", "$l@", "l: ", "import", ".whl"}
 
+// wordRec is one TLC-enumerated input: kind "word" (W = alphabet indices) or "text" (W = [line kind, depth] pairs).
 type wordRec struct {
-	W []int `json:"w"`
+	Kind string            `json:"kind"`
+	W    []json.RawMessage `json:"w"`
 }
+
+// resolveLines / schemaLines: the line templates of the two text formats, indexed by line kind - 1.
+var resolveLines = []string{"a@1 1.0", "l: b@^1 1.0", "$l@1", "$m@1", "l: c@2 2.0", "a@1 ERROR: boom", "ERROR: top", "dev|d@1 1.0", "# c", "root 1.0"}
+var schemaLines = []string{"pkg", "1.0.0", "dep@^1", "ATTR: Tags latest", "dev|dep@1", "opt KnownAs x|other@1", "2.0.0-rc.1", "@scope/pkg", "ATTR: Registries dep:x", "# c"}
+
+func (wr wordRec) render() (word string, rtext string, stext string, err error) {
+	var b, c strings.Builder
+	for _, raw := range wr.W {
+		if wr.Kind == "text" {
+			var kd [2]int
+			if err := json.Unmarshal(raw, &kd); err != nil {
+				return "", "", "", err
+			}
+			tabs := strings.Repeat("\t", kd[1])
+			b.WriteString(tabs + resolveLines[kd[0]-1] + "\n")
+			c.WriteString(tabs + schemaLines[kd[0]-1] + "\n")
+			continue
+		}
+		var k int
+		if err := json.Unmarshal(raw, &k); err != nil {
+			return "", "", "", err
+		}
+		b.WriteString(alphabet[k-1])
+	}
+	if wr.Kind == "text" {
+		return "", b.String(), c.String(), nil
+	}
+	return b.String(), "", "", nil
+}
+
+// forEachInput streams the (possibly CSVWrite-quoted) ndjson file, keeping the lines of this shard (VERIF_SHARD=k/n).
+func forEachInput(path string, f func(i int, wr wordRec) error) error {
+	shard, nshards := 0, 1
+	if v := os.Getenv("VERIF_SHARD"); v != "" {
+		fmt.Sscanf(v, "%d/%d", &shard, &nshards)
+	}
+	fh, err := os.Open(path)
+	if err != nil {
+		return err
+	}
+	defer fh.Close()
+	sc := bufio.NewScanner(fh)
+	sc.Buffer(make([]byte, 1<<16), 1<<24)
+	for i := 0; sc.Scan(); i++ {
+		b := sc.Bytes()
+		if len(b) == 0 || i%nshards != shard {
+			continue
+		}
+		if b[0] == '"' {
+			var s string
+			if err := json.Unmarshal(b, &s); err != nil {
+				return err
+			}
+			b = []byte(s)
+		}
+		var wr wordRec
+		if err := json.Unmarshal(b, &wr); err != nil {
+			return fmt.Errorf("%s:%d: %v", path, i+1, err)
+		}
+		if err := f(i, wr); err != nil {
+			return err
+		}
+	}
+	return sc.Err()
+}
+
 type outcomeRec struct {
 	Outcome string `json:"outcome"`
 	Count   int    `json:"count"`
@@ -43,6 +119,8 @@ type totalObs struct {
 	MaxMs     int64        `json:"maxms"`     // slowest returning call
 	MaxLen    int          `json:"maxlen"`    // longest input
 	Outcomes  []outcomeRec `json:"outcomes"`
+	Skipped   int          `json:"skipped"` // calls not made after this entry point failed to return once (its goroutine is still spinning)
+	dead      bool
 }
 
 const (
@@ -73,6 +151,10 @@ func (t *tally) call(entry, sys, input string, f func() error) {
 		o = &totalObs{Entry: entry, Sys: sys}
 		t.m[key] = o
 		t.order = append(t.order, key)
+	}
+	if o.dead {
+		o.Skipped++
+		return
 	}
 	if t.prog != nil {
 		t.prog.Truncate(0)
@@ -118,6 +200,9 @@ func (t *tally) call(entry, sys, input string, f func() error) {
 		}
 	}
 	o.Outcomes = append(o.Outcomes, outcomeRec{Outcome: out, Count: 1, Witness: brief(input)})
+	if strings.HasPrefix(out, "did not return") {
+		o.dead = true
+	}
 }
 
 func wait(done chan string, o *totalObs) (out string) {
@@ -266,6 +351,29 @@ func (t *tally) schemaCalls(w string) {
 	}
 }
 
+// textCalls feeds one grammar-derived text to the parsers of the two line-oriented formats.
+func (t *tally) textCalls(rtext, stext string) {
+	for _, sn := range []string{"NPM", "Maven", "PyPI"} {
+		sys := rsysByName[sn]
+		t.call("schema.ParseResolve text", sn, rtext, func() error {
+			g, err := schema.ParseResolve(rtext, sys)
+			if err == nil && g != nil {
+				_ = g.String()
+				_ = g.Canon()
+			}
+			return err
+		})
+		t.call("schema.New text", sn, stext, func() error {
+			s, err := schema.New(stext, sys)
+			if err == nil && s != nil {
+				c := s.NewClient()
+				_ = s.ValidateClient(c)
+			}
+			return err
+		})
+	}
+}
+
 func (t *tally) resolverCalls(w string) {
 	ctx := context.Background()
 	mk := func(sys resolve.System, n, v string, vt resolve.VersionType) resolve.VersionKey {
@@ -289,6 +397,33 @@ func (t *tally) resolverCalls(w string) {
 			{VersionKey: mk(sys, names[1], vers[0], resolve.Requirement), Type: ty2}})
 		return lc
 	}
+	// deep: the input is also a package NAME, required two levels below the root by a version reached over an edge
+	// that carries exclusions / extras / an alias (root -> mid [attrs] -> <w>@<w>).
+	deep := func(sys resolve.System, root, mid string) *resolve.LocalClient {
+		lc := resolve.NewLocalClient()
+		var ty dep.Type
+		ty.AddAttr(dep.MavenExclusions, "g:zzz|*:q")
+		ty.AddAttr(dep.EnabledDependencies, "x")
+		ty.AddAttr(dep.KnownAs, "al")
+		lc.AddVersion(resolve.Version{VersionKey: mk(sys, w, "1.0", resolve.Concrete)}, nil)
+		lc.AddVersion(resolve.Version{VersionKey: mk(sys, mid, "1.0", resolve.Concrete)}, []resolve.RequirementVersion{
+			{VersionKey: mk(sys, w, "1.0", resolve.Requirement)}, {VersionKey: mk(sys, w, w, resolve.Requirement)}})
+		lc.AddVersion(resolve.Version{VersionKey: mk(sys, root, "1.0", resolve.Concrete)}, []resolve.RequirementVersion{
+			{VersionKey: mk(sys, mid, "1.0", resolve.Requirement), Type: ty}})
+		return lc
+	}
+	t.call("npm.Resolve names", "NPM", w, func() error {
+		_, err := npmres.NewResolver(deep(resolve.NPM, "root", "mid")).Resolve(ctx, mk(resolve.NPM, "root", "1.0", resolve.Concrete))
+		return err
+	})
+	t.call("maven.Resolve names", "Maven", w, func() error {
+		_, err := mavenres.NewResolver(deep(resolve.Maven, "g:root", "g:mid")).Resolve(ctx, mk(resolve.Maven, "g:root", "1.0", resolve.Concrete))
+		return err
+	})
+	t.call("pypi.Resolve names", "PyPI", w, func() error {
+		_, err := pypires.NewResolver(deep(resolve.PyPI, "root", "mid")).Resolve(ctx, mk(resolve.PyPI, "root", "1.0", resolve.Concrete))
+		return err
+	})
 	t.call("npm.Resolve", "NPM", w, func() error {
 		lc := build(resolve.NPM, [2]string{"root", "dep"}, []string{"1.0.0", "2.0.0-rc.1", w}, false)
 		_, err := npmres.NewResolver(lc).Resolve(ctx, mk(resolve.NPM, "root", "1.0.0", resolve.Concrete))
@@ -423,10 +558,6 @@ func cmdTotal(args []string) error {
 	if len(args) < 5 {
 		return fmt.Errorf("usage: total words obs seed nmut progress")
 	}
-	words, err := readNDJSON[wordRec](args[0])
-	if err != nil {
-		return err
-	}
 	var seed int64
 	var nmut int
 	fmt.Sscan(args[2], &seed)
@@ -446,13 +577,22 @@ func cmdTotal(args []string) error {
 			t.resolverCalls(w)
 		}
 	}
-	for i, wr := range words {
-		var b strings.Builder
-		for _, k := range wr.W {
-			b.WriteString(alphabet[k-1])
+	nin := 0
+	if err := forEachInput(args[0], func(i int, wr wordRec) error {
+		w, rtext, stext, err := wr.render()
+		if err != nil {
+			return err
+		}
+		nin++
+		if wr.Kind == "text" {
+			t.textCalls(rtext, stext)
+			return nil
 		}
 		// schema and resolver entry points on every 7th enumerated word (they are two orders of magnitude slower)
-		run(b.String(), i%7 == 0)
+		run(w, nin%7 == 0)
+		return nil
+	}); err != nil {
+		return err
 	}
 	rng := rand.New(rand.NewSource(seed))
 	for i := 0; i < nmut; i++ {
@@ -500,6 +640,7 @@ func cmdTotal1(args []string) error {
 	t.schemaCalls(in)
 	t.resolverCalls(in)
 	t.markerCall(in)
+	t.textCalls(in, in)
 	w, err := newNDWriter(args[0])
 	if err != nil {
 		return err
